@@ -376,6 +376,47 @@ func itemClass(names []string) string {
 var tokenAlpha = []string{"include", "namespace", "typedef", "struct", "union", "exception", "service", "enum", "const", "extends", "throws", "oneway", "void", "required", "optional",
 	"i32", "string", "list", "map", "set", "true", "{", "}", "(", ")", "[", "]", "<", ">", ",", ";", ":", "=", "*", "a", "a.b", "1", "-0x1", "1.5e3", "\"s\"", "'s'", "\"s", "/**", "*/", "#", "\n"}
 
+var poisonTokens = []string{"interface", "BEGIN", "float", "args", "99999999999999999999", "-99999999999999999999", "0xffffffffffffffffff", "1e999", "\"bad \\q escape\"", "'bad \\q escape'"}
+
+// mustReject: a document containing a poison token is not a valid document.
+func (r *runner) mustReject(src, item, poison string, topLevel bool) {
+	w := r.w
+	w.Eval(1)
+	w.Nontrivial(1)
+	w.Count("poison_token_documents", 1)
+	var got *ast.Program
+	var err error
+	var pan interface{}
+	func() {
+		defer func() { pan = recover() }()
+		got, err = idl.Parse([]byte(src))
+	}()
+	where := "inside"
+	if topLevel {
+		where = "top-level"
+	}
+	class := "reserved-word"
+	switch poison[0] {
+	case '"', '\'':
+		class = "bad-escape"
+	case '0', '1', '9', '-':
+		class = "literal-out-of-range"
+	}
+	rep := map[string]string{"src": src, "item": item, "poison": poison}
+	switch {
+	case pan != nil:
+		w.Violation("totality-panic", fmt.Sprintf("Parse(%q) panicked: %v", src, pan), rep)
+	case err == nil:
+		nd := 0
+		if got != nil {
+			nd = len(got.Definitions) + len(got.Headers)
+		}
+		w.Violation("accepted-invalid:"+class+":"+where, fmt.Sprintf("a document containing the invalid token %s was accepted (%d headers+definitions returned, no error): %q", poison, nd, src), rep)
+	default:
+		w.Outcome("poison-rejected")
+	}
+}
+
 func (r *runner) totality(src string) {
 	w := r.w
 	w.Eval(1)
@@ -527,6 +568,43 @@ func run(w *ev.W) {
 						}
 						do(items, []idlprint.Deviation{d1, d2})
 					}
+				}
+			}
+		}
+	}
+	// (d) poison tokens: a reserved word, an integer or double literal outside the
+	// representable range, or a string with an invalid escape makes a document invalid
+	// wherever it stands - before, between, after and inside definitions. Every catalog
+	// item, every token gap (and the two ends), every poison token.
+	{
+		var vp0 []idlprint.ValuePos
+		for _, it := range idlprint.Catalog(&vp0) {
+			if stop {
+				break
+			}
+			items := []idlprint.Item{it}
+			_, _, d0 := idlprint.Build(idlprint.Program(items), nil)
+			for gap := 0; gap <= d0.Tokens(); gap++ {
+				for _, poison := range poisonTokens {
+					if !w.Own() {
+						continue
+					}
+					n++
+					if n&255 == 0 && expired() {
+						break
+					}
+					var src string
+					switch {
+					case gap == 0:
+						src0, _, _ := idlprint.Build(idlprint.Program(items), nil)
+						src = poison + "\n" + src0
+					case gap == d0.Tokens():
+						src0, _, _ := idlprint.Build(idlprint.Program(items), nil)
+						src = src0 + "\n" + poison + "\n"
+					default:
+						src, _, _ = idlprint.Build(idlprint.Program(items), []idlprint.Deviation{{Tok: gap, Kind: "gap: " + poison + " "}})
+					}
+					r.mustReject(src, it.Name, poison, gap == 0 || gap == d0.Tokens())
 				}
 			}
 		}
